@@ -8,7 +8,7 @@
 //   rp  <pattern>                                          -> <isRelativePattern> <isAbsolute>
 //   jn  <a> <b>                                            -> hex          (Path::join)
 //   grp <abs> <n> <basepath>*n                             -> hex          (Path::getRelativePath)
-//   cli <n> <arg>*n                                        -> F | S <ni> <ignored>*ni <np> <pathname>*np
+//   cli <n> <arg>*n                                        -> F | S <ni> <ignored>*ni <nf> <filter>*nf <np> <pathname>*np
 //       the real CmdLineParser::parseFromArgs on argv = {"cppcheck", arg…}; its mIgnoredPaths / mPathNames afterwards
 //   ls  <casedir> <patharg> <nodepath> <base> <ni> <ign>*ni <ne> <extra>*ne <ntop> <tree>*ntop
 //                                                           -> E<err> <count> {<path>:<lang>}*
@@ -132,6 +132,8 @@ int main()
                 } else {
                     out = "S " + std::to_string(parser.mIgnoredPaths.size());
                     for (const std::string& p : parser.mIgnoredPaths) out += " " + hex(p);
+                    out += " " + std::to_string(settings.fileFilters.size());
+                    for (const std::string& p : settings.fileFilters) out += " " + hex(p);
                     out += " " + std::to_string(parser.mPathNames.size());
                     for (const std::string& p : parser.mPathNames) out += " " + hex(p);
                 }
